@@ -76,6 +76,25 @@ add('C04',
     "tolerance 1e4 eps. Coarsened directions have even cell counts >= 4 "
     "(what the multigrid recursion can coarsen).")
 
+add('C05',
+    "exhaustive enumeration of grid shapes x cycle x covering set of "
+    "(semicoarsening, linerelaxation, clevel) plus Hypothesis-random "
+    "configurations, on the real emg3d.solve with numerical kernels "
+    "replaced by recorders; oracle = independent textbook V/W/F reference "
+    "generator; recorder validated against the parsed verb=5 log",
+    "Exploration with exhaustive sub-domains: quick enumerates all shapes "
+    "{2..9}^3 (thorough {2..40}^3 and n<=1024 per single direction) x V/W/F "
+    "x a rotating covering design of patterns; every recorded event "
+    "sequence (smoothing kernel, level shape, sweeps, restriction, "
+    "prolongation) must equal the reference, and direct invariants (>=2 "
+    "cells, no line relaxation along 2 cells, halve only even n>2) are "
+    "asserted; the full-numerics verb=5 log, the QC figure and the header's "
+    "coarsest grid are compared with the same reference.",
+    "Trusted: reference generator in vp/checks/c05_cycling.py. The stubbed "
+    "run exercises solve/MGParameters/multigrid/smoothing dispatch/"
+    "restriction bookkeeping unmodified; only the four Gauss-Seidel kernels, "
+    "core.restrict, solver.prolongation and solver.residual are recorders.")
+
 NOT_BUILT = "check not built yet (see DESIGN.md section 3 for the plan)"
 
 
